@@ -234,6 +234,9 @@ pub struct Tick {
     pub quality_enabled: bool,
     /// open file descriptors of this process when the tick was observed
     pub fds: usize,
+    /// what the stamping loop of this tick left ON the connections (hook `stamp_log`): (ip, weak, cc_backing_off,
+    /// cc_target_bps, loss_degraded) per link; `None` when the log did not hold exactly this tick's rows
+    pub stamps: Option<Vec<(String, bool, bool, u64, bool)>>,
 }
 
 impl LinkTick {
@@ -651,6 +654,8 @@ pub fn run(sc: &Scenario) -> Result<Trace, &'static str> {
             let mut trace: Vec<Tick> = Vec::new();
             let mut next_reload = 0usize;
             let mut run2 = 0usize;
+            // rows left by an earlier scenario of this process
+            let _ = srtla_send::sender::verif_hooks::stamp_log::take();
             loop {
                 // one tick per second: ten seconds of virtual time without one (sixty before the first) = the loop is stuck
                 let wait = if trace.is_empty() { 60 } else { 10 };
@@ -698,7 +703,16 @@ pub fn run(sc: &Scenario) -> Result<Trace, &'static str> {
                     Some(l) if l.share_weak() => run2 + 1,
                     _ => 0,
                 };
-                trace.push(Tick { n, at: ctl.now(), links: lt, reloads_sent: next_reload, mode: data["mode"].as_str().unwrap_or("").to_string(), quality_enabled: data["quality_enabled"].as_bool().unwrap_or(false), fds: std::fs::read_dir("/proc/self/fd").map(|d| d.count()).unwrap_or(0) });
+                // the arm records the stamped fields right before it builds and publishes this snapshot, and the loop
+                // cannot reach its next tick before this task has seen the event (virtual time only moves when every
+                // task is idle): the log holds exactly this tick's rows - anything else is not judged
+                let mut rows = srtla_send::sender::verif_hooks::stamp_log::take();
+                let stamps = if rows.len() == 1 {
+                    rows.pop().map(|r| r.into_iter().map(|(ip, _id, w, ccb, cct, ld)| (ip.to_string(), w, ccb, cct, ld)).collect())
+                } else {
+                    None
+                };
+                trace.push(Tick { n, at: ctl.now(), links: lt, reloads_sent: next_reload, mode: data["mode"].as_str().unwrap_or("").to_string(), quality_enabled: data["quality_enabled"].as_bool().unwrap_or(false), fds: std::fs::read_dir("/proc/self/fd").map(|d| d.count()).unwrap_or(0), stamps });
                 for (t, k, v) in &sc.cfg {
                     if *t == n {
                         match k {
@@ -766,7 +780,45 @@ pub fn dump(trace: &[Tick], ip: &str) -> String {
 }
 
 /// C17 on the real loop's per-tick verdicts (model-independent renderings of the property's clauses).
+/// The stamping loop of the REAL housekeeping arm: the four verdict fields it leaves on each connection - what selection
+/// reads - are this tick's classifier verdict and CC snapshot for THAT link.  The published statistics take the verdicts
+/// from the classifier / controller results directly, so without the hook nothing shows the stamped fields of the
+/// running loop (audit 5, A1).  `which` = "C17" judges `weak`, "C16" the three controller fields.
+pub fn monitors_stamps(trace: &[Tick], sc: &Scenario, which: &str, mon: &mut crate::Mon) {
+    let what = sc.render();
+    for t in trace {
+        let Some(stamps) = &t.stamps else {
+            mon.count("loop-stamps-not-aligned");
+            continue;
+        };
+        mon.count("loop-stamps-tick");
+        for l in &t.links {
+            let Some((_, w, ccb, cct, ld)) = stamps.iter().find(|r| r.0 == l.ip) else {
+                mon.fail(which, "loop-stamp-missing", format!("real event loop [{what}]: tick {} publishes uplink {} but the stamping loop saw no connection with that address", t.n, l.ip));
+                continue;
+            };
+            if which == "C17" {
+                if *w {
+                    mon.count("loop-stamp-weak");
+                }
+                if *w != l.weak {
+                    mon.fail("C17", "loop-stamp-differs-from-verdict", format!("real event loop [{what}]: tick {}: the classifier's verdict for {} is weak={} ({}), the connection was stamped weak={} :: {}", t.n, l.ip, l.weak, l.reason, w, dump(trace, &l.ip)));
+                }
+            } else {
+                if *cct != 0 {
+                    mon.count("loop-stamp-target-nonzero");
+                }
+                let want_ccb = l.cc_state == "backing_off";
+                if *cct != l.cc_target_bps || *ld != l.cc_loss_degraded || *ccb != want_ccb {
+                    mon.fail("C16", "loop-stamp-differs-from-verdict", format!("real event loop [{what}]: tick {}: the controller's snapshot for {} is state {} target {} loss_degraded {}, the connection was stamped cc_backing_off={} cc_target_bps={} loss_degraded={} :: {}", t.n, l.ip, l.cc_state, l.cc_target_bps, l.cc_loss_degraded, ccb, cct, ld, dump(trace, &l.ip)));
+                }
+            }
+        }
+    }
+}
+
 pub fn monitors_c17(trace: &[Tick], sc: &Scenario, mon: &mut crate::Mon) {
+    monitors_stamps(trace, sc, "C17", mon);
     use std::collections::BTreeMap;
     let what = sc.render();
     // never weak while disconnected; never weak while total throughput is under 100 kbit/s
@@ -831,6 +883,7 @@ pub fn monitors_c17(trace: &[Tick], sc: &Scenario, mon: &mut crate::Mon) {
 
 /// C16 on the real loop's per-tick CC snapshots.
 pub fn monitors_c16(trace: &[Tick], sc: &Scenario, mon: &mut crate::Mon) {
+    monitors_stamps(trace, sc, "C16", mon);
     use std::collections::BTreeMap;
     let what = sc.render();
     let mut prev: BTreeMap<String, LinkTick> = BTreeMap::new();
